@@ -1,6 +1,7 @@
 import UnifexModel.Driver.Entry
 import UnifexModel.Proto.ScopeV2
 import UnifexModel.Proto.ScopeV1
+import UnifexModel.Proto.ScopeV0
 
 namespace Unifex.Driver.Entries
 open Unifex.Proto
@@ -11,6 +12,10 @@ def scopev2 : ModelEntries :=
 
 def scopev1 : ModelEntries :=
   ("scopev1", ScopeV1.configs.map (fun (n, c) =>
+      (n, mkEntry (ScopeV1.sys c) ScopeV1.obsOf (ScopeV1.final c))))
+
+def scopev0 : ModelEntries :=
+  ("scopev0", ScopeV0.configs.map (fun (n, c) =>
       (n, mkEntry (ScopeV1.sys c) ScopeV1.obsOf (ScopeV1.final c))))
 
 end Unifex.Driver.Entries
